@@ -334,10 +334,13 @@ def _call_model(fr, m, X, *args):
     for t in ts[1:]:
         # the assumed contract only speaks about equal leading dimensions
         L.require_eq(ctx, X.shape[0], t.shape[0], 'RuntimeError')
-    if m.attrs.get('may_raise') and ctx.choose(2) == 0:
-        # the forward pass of a user model may fail at any call (C07: any crash point)
-        ctx.events.append(('model_forward_raises',))
-        raise SymRaise('RuntimeError', site='model-forward')
+    if m.attrs.get('may_raise'):
+        # the forward pass of a user model may fail at any call (C07: any crash point) - with an ordinary
+        # exception or with a BaseException (an interrupt) that `except Exception` does not catch
+        k = ctx.choose(3)
+        if k < 2:
+            ctx.events.append(('model_forward_raises',))
+            raise SymRaise('RuntimeError' if k == 0 else 'KeyboardInterrupt', site='model-forward')
     outs = rw.apply_rows(ts)
     ctx.ghost['last_model_call'] = {'model': m, 'inputs': ts, 'outs': outs, 'hooks': ctx.ghost.get('dls_hooks', False)}
     return rw.package(outs)
